@@ -39,6 +39,49 @@ def _cvc5_check(smt2: str, timeout_s: float) -> str:
     return out
 
 
+def _cvc5_check_guarded(smt2: str, timeout_s: float) -> str:
+    """_cvc5_check in a forked child with a hard deadline: cvc5's own `tlimit-per` is not honoured inside some non-linear
+    queries (observed: > 13 CPU minutes on one C02 query with a 90 s limit).  A child that is still running
+    `timeout_s + 5` seconds after the fork is killed and the query counts as unknown (never a verdict)."""
+    import select
+    import signal
+    rfd, wfd = os.pipe()
+    pid = os.fork()
+    if pid == 0:  # child
+        code = 0
+        try:
+            os.close(rfd)
+            try:
+                out = _cvc5_check(smt2, timeout_s)
+            except BaseException:  # noqa: BLE001
+                out = "unknown"
+            os.write(wfd, out.encode())
+        except BaseException:  # noqa: BLE001
+            code = 1
+        finally:
+            os._exit(code)
+    os.close(wfd)
+    out = "unknown"
+    try:
+        ready, _, _ = select.select([rfd], [], [], timeout_s + 5.0)
+        if ready:
+            data = os.read(rfd, 64).decode(errors="replace").strip()
+            if data in ("sat", "unsat", "unknown"):
+                out = data
+        else:
+            try:
+                os.kill(pid, signal.SIGKILL)
+            except ProcessLookupError:
+                pass
+    finally:
+        os.close(rfd)
+        try:
+            os.waitpid(pid, 0)
+        except ChildProcessError:
+            pass
+    return out
+
+
 def check_sat(constraints: Iterable, timeout_s: float = DEFAULT_TIMEOUT_S, use_cvc5: bool = True):
     """returns (result in {'sat','unsat','unknown'}, backend, ms, model_or_None)"""
     s = z3.Solver()
@@ -56,7 +99,7 @@ def check_sat(constraints: Iterable, timeout_s: float = DEFAULT_TIMEOUT_S, use_c
     if use_cvc5:
         t1 = time.time()
         try:
-            r2 = _cvc5_check(s.to_smt2(), timeout_s)
+            r2 = _cvc5_check_guarded(s.to_smt2(), timeout_s)
         except Exception as e:  # parser/feature gaps are "unknown", never a verdict
             r2 = "unknown"
         ms2 = (time.time() - t1) * 1000
@@ -98,7 +141,7 @@ def prove(name: str, hyps: Iterable, goal, *, timeout_s: float = DEFAULT_TIMEOUT
                 s = z3.Solver()
                 for c in hyps + [z3.Not(goal)]:
                     s.add(c)
-                r2 = _cvc5_check(s.to_smt2(), timeout_s)
+                r2 = _cvc5_check_guarded(s.to_smt2(), timeout_s)
                 if r2 == "sat":
                     return Ob(name, FAULT, "z3!=cvc5", ms, "solver disagreement: z3 unsat, cvc5 sat", signature), None
                 be = "z3+cvc5" if r2 == "unsat" else "z3"
